@@ -191,34 +191,48 @@ def shape_trees():
     return trees + extra
 
 
+SHAPES_2 = [(), (0,), (3,), (1, 2)]  # reduced menu whose full product is taken for two-leaf trees
+
+
+def leaf_shape_tuples(nleaf, full):
+    if nleaf == 0:
+        return [()]
+    if nleaf == 1:
+        return [(s,) for s in SHAPES]
+    if nleaf == 2:
+        return [(a, b) for a in SHAPES_2 for b in SHAPES_2]
+    if full:
+        return [tuple(SHAPES[(si + 3 * j) % len(SHAPES)] for j in range(nleaf)) for si in range(len(SHAPES))] + [
+            tuple(SHAPES_2[(si + j) % 4] for j in range(nleaf)) for si in range(4)]
+    return [tuple(SHAPES[(si + 3 * j) % len(SHAPES)] for j in range(nleaf)) for si in range(3)]
+
+
+QUICK_DTYPES = {'numpy': ['bool', 'int32', 'float32', 'complex64'], 'jax': ['bool', 'int8', 'int32', 'float32'],
+                'torch': ['bool', 'int8', 'int64', 'float32', 'float64']}
+
+
 def run_shard(ctx):
     quick = ctx.tier == 'quick'
     idx = 0
     trees = shape_trees()
     for bname in ('numpy', 'jax', 'torch'):
         B = Backend(bname)
-        dtypes = DTYPES[bname][:4] if quick else DTYPES[bname]
-        if quick and bname == 'numpy':
-            dtypes = ['bool', 'int32', 'float32', 'complex64']
-        shapes = SHAPES
+        dtypes = QUICK_DTYPES[bname] if quick else DTYPES[bname]
         max_leaves = 2 if quick else 3
         for dsl in trees:
             nleaf = gen.dsl_repr(dsl).count('*')
             if nleaf > max_leaves:
                 continue
-            for nil, ns in ((False, ''), (True, 'ns')) if (quick or bname != 'numpy') else (
-                    (False, ''), (True, ''), (False, 'ns'), (True, 'ns')):
-                # dtype orders: all tuples of dtypes for the leaves; shapes: rotate through the menu
-                if bname == 'numpy' and not quick:
-                    dcombos = list(itertools.product(dtypes, repeat=nleaf))
-                else:
-                    dcombos = list(itertools.product(dtypes[:3] if bname != 'numpy' else dtypes, repeat=nleaf))
-                for di, dts in enumerate(dcombos):
-                    for si in range(len(shapes) if nleaf <= 1 else (len(shapes) if (bname == 'numpy' and not quick) else 3)):
+            opts = ((False, ''), (True, 'ns')) if (quick or bname != 'numpy') else (
+                (False, ''), (True, ''), (False, 'ns'), (True, 'ns'))
+            dt_menu = dtypes if nleaf <= 2 else dtypes[:4]
+            for nil, ns in opts:
+                for dts in itertools.product(dt_menu, repeat=nleaf):
+                    for shp in leaf_shape_tuples(nleaf, bname == 'numpy' and not quick):
                         idx += 1
                         if not ctx.mine(idx):
                             continue
-                        specs = [(shapes[(si + 3 * j) % len(shapes)], dts[j]) for j in range(nleaf)]
+                        specs = list(zip(shp, dts))
                         check_case(ctx, B, dsl, specs, nil, ns)
                         if len(ctx.samples) < 4 and nleaf == 2:
                             ctx.sample({'backend': bname, 'tree': gen.dsl_repr(dsl), 'leaves': [[list(s), d] for s, d in specs]})
